@@ -2119,9 +2119,12 @@ def _thread_jumps(blocks, max_new=240, rounds=48):
 
 ITER = "core::iter::traits::iterator::Iterator::"
 LAZY = ("map", "filter_map", "filter", "inspect")
-CONSUMERS = ("collect", "for_each", "fold", "any", "all", "find", "find_map", "position", "nth", "count", "try_for_each")
+CONSUMERS = ("collect", "for_each", "fold", "any", "all", "find", "find_map", "position", "nth", "count", "try_for_each", "partition")
+#   base.partition(p)  (into two Vecs)  ==  let (mut a, mut b) = (Vec::new(), Vec::new()); for x in base { if p(&x) { a.push(x) } else { b.push(x) } }; (a, b)
+#   v.extend(base.map(f)..)  (v a Vec)  ==  for x in base.map(f).. { v.push(x) }
+EXTEND = "core::iter::traits::collect::Extend::extend"
 BY_REF_CONSUMERS = ("any", "all", "find", "find_map", "position", "nth", "try_for_each")
-PRED_CONSUMERS = ("for_each", "any", "all", "find", "find_map", "position", "try_for_each")
+PRED_CONSUMERS = ("for_each", "any", "all", "find", "find_map", "position", "try_for_each", "partition")
 #   base.try_for_each(f)  (Result)  ==   loop { match base.next() { None => break Ok(()), Some(x) => { let r = f(x); if r.is_err() { break r } } } }
 #   base.any(p)        ==   loop { match base.next() { None => break false, Some(x) => if p(x) { break true } } }      (all: dually)
 #   base.find(p)       ==   loop { match base.next() { None => break None, Some(x) => if p(&x) { break Some(x) } } }
@@ -2131,7 +2134,31 @@ PRED_CONSUMERS = ("for_each", "any", "all", "find", "find_map", "position", "try
 #   base.count()       ==   let mut c = 0; loop { match base.next() { None => break c, Some(_) => c += 1 } }
 
 
-def desugar_adaptors(prog, fn, results=False):
+def _vec_elem(ty):
+    """T of the first `alloc::vec::Vec<T..>` in a type's text"""
+    ty = str(ty or "")
+    i = ty.find("alloc::vec::Vec<")
+    if i < 0:
+        return "?"
+    j = i + len("alloc::vec::Vec<")
+    depth, k = 1, j
+    while k < len(ty) and depth:
+        if ty[k] == "<":
+            depth += 1
+        elif ty[k] == ">":
+            depth -= 1
+        elif ty[k] == "," and depth == 1:
+            break
+        k += 1
+    return ty[j:k].strip() if depth == 0 or (k < len(ty) and ty[k] == ",") else "?"
+
+
+def _as_copy(op):
+    pl = op.get("copy") or op.get("move")
+    return {"copy": pl} if pl is not None else op
+
+
+def desugar_adaptors(prog, fn, results=False, _depth=0):
     blocks = [_copy.copy(b) for b in fn.blocks]
     locals_ = list(fn.locals)
     done = []
@@ -2176,6 +2203,12 @@ def desugar_adaptors(prog, fn, results=False):
         if callable_[0] == "fn":
             c = callable_[1]
             path = c.get("resolved") if c.get("resolved_local") else c.get("path")
+            par_, _, vn_ = (path or "").rpartition("::")
+            adt_ = prog.adts.get(par_) if path not in prog.fns else None
+            if adt_ is not None and any(v_.get("name") == vn_ for v_ in adt_.get("variants", [])):
+                # a tuple-variant constructor used as a function (`.map(ConfigError::NonexistentAppender)`): the value it builds
+                return new_block([assign(dest, {"k": "agg", "agg": "adt", "adt": par_, "adt_local": True, "variant": vn_, "field_names": [str(i_) for i_ in range(len(args))],
+                                                "fields": [{"move": {"l": a, "p": []}} for a in args]}, at)], {"k": "goto", "target": target, "at": at})
             t = {"k": "call", "decl": c.get("path"), "decl_local": bool(c.get("local")), "dispatch": "static", "resolved": path,
                  "resolved_local": bool(c.get("resolved_local") or c.get("local")), "args": [{"move": {"l": a, "p": []}} for a in args], "arg_tys": [], "generic_args": [],
                  "dest": {"l": dest, "p": []}, "target": target, "unwind": None, "at": at}
@@ -2313,10 +2346,13 @@ def desugar_adaptors(prog, fn, results=False):
                 blocks[bi] = nb
                 done.append("map_or@bb%d" % bi)
             continue
-        if blocks[bi].get("cleanup") or t["k"] != "call" or not (t.get("decl") or "").startswith(ITER) or t.get("target") is None:
+        is_extend = t["k"] == "call" and t.get("decl") == EXTEND and len(t.get("args", [])) == 2 and str((t.get("arg_tys") or [""])[0]).startswith("&mut alloc::vec::Vec<")
+        if blocks[bi].get("cleanup") or t["k"] != "call" or not ((t.get("decl") or "").startswith(ITER) or is_extend) or t.get("target") is None:
             continue
-        kind = t["decl"][len(ITER):]
-        if kind not in CONSUMERS:
+        kind = "extend" if is_extend else t["decl"][len(ITER):]
+        if kind not in CONSUMERS and not is_extend:
+            continue
+        if kind == "partition" and not (t.get("dest_ty") or "").startswith("(alloc::vec::Vec<"):
             continue
         into_map = kind == "collect" and (t.get("dest_ty") or "").startswith("std::collections::hash::map::HashMap<") and (t.get("dest_ty") or "").count(",") == 1
         if kind == "collect" and not ((t.get("dest_ty") or "").startswith("alloc::vec::Vec<") or into_map):
@@ -2325,7 +2361,7 @@ def desugar_adaptors(prog, fn, results=False):
             continue
         # walk the lazy chain backwards
         stages = []
-        cur = t["args"][0]
+        cur = t["args"][1] if kind == "extend" else t["args"][0]
         chain_blocks = []
         ok = True
         if kind in BY_REF_CONSUMERS:
@@ -2373,7 +2409,7 @@ def desugar_adaptors(prog, fn, results=False):
             cons_callable = callable_of(t["args"][2])
         if kind in PRED_CONSUMERS + ("fold",) and cons_callable is None:
             continue
-        if kind in ("collect", "nth", "count") and not stages:
+        if kind in ("collect", "nth", "count", "extend") and not stages:
             continue
         at = t.get("at")
         dest = t["dest"]["l"]
@@ -2387,8 +2423,11 @@ def desugar_adaptors(prog, fn, results=False):
         if kind == "fold":
             acc = new_local()
             exit_stmts.append(assign(dest, {"k": "use", "a": {"move": {"l": acc, "p": []}}}, at))
-        elif kind == "for_each":
+        elif kind in ("for_each", "extend"):
             exit_stmts.append(assign(dest, {"k": "use", "a": {"const": {"kind": "zst", "ty": "()"}}}, at))
+        elif kind == "partition":
+            va, vb_ = new_local("alloc::vec::Vec<?>"), new_local("alloc::vec::Vec<?>")
+            exit_stmts.append(assign(dest, {"k": "agg", "agg": "tuple", "fields": [{"move": {"l": va, "p": []}}, {"move": {"l": vb_, "p": []}}]}, at))
         elif kind in ("any", "all"):
             exit_stmts.append(assign(dest, {"k": "use", "a": {"const": {"kind": "bool", "value": kind == "all", "ty": "bool"}}}, at))
         elif kind in ("find", "find_map", "position", "nth"):
@@ -2433,11 +2472,32 @@ def desugar_adaptors(prog, fn, results=False):
             pb = new_block([assign(rbv, {"k": "ref", "mut": True, "place": {"l": dest, "p": []}}, at)], None)
             blocks[pb]["term"] = {"k": "call", "decl": "alloc::vec::Vec::<T, A>::push", "decl_local": False, "self_adt": "alloc::vec::Vec", "dispatch": "static",
                                   "resolved": "alloc::vec::Vec::<T, A>::push", "resolved_local": False, "args": [{"move": {"l": rbv, "p": []}}, {"move": {"l": xn, "p": []}}],
-                                  "arg_tys": [], "generic_args": [], "dest": {"l": unit, "p": []}, "target": H, "unwind": None, "at": at}
+                                  "arg_tys": ["&mut " + str(t.get("dest_ty") or "?"), _vec_elem(t.get("dest_ty"))], "generic_args": [], "dest": {"l": unit, "p": []}, "target": H, "unwind": None, "at": at}
             tail_entry = pb
         elif kind == "for_each":
             unit = new_local("()")
             tail_entry = emit_call(cons_callable, [xn], unit, H, at)
+        elif kind == "extend":
+            unit = new_local("()")
+            pb = new_block([], None)
+            blocks[pb]["term"] = {"k": "call", "decl": "alloc::vec::Vec::<T, A>::push", "decl_local": False, "self_adt": "alloc::vec::Vec", "dispatch": "static",
+                                  "resolved": "alloc::vec::Vec::<T, A>::push", "resolved_local": False, "args": [_as_copy(t["args"][0]), {"move": {"l": xn, "p": []}}],
+                                  "arg_tys": [str((t.get("arg_tys") or ["?"])[0]), _vec_elem((t.get("arg_tys") or ["?"])[0])], "generic_args": [], "dest": {"l": unit, "p": []}, "target": H, "unwind": None, "at": at}
+            tail_entry = pb
+        elif kind == "partition":
+            r, rx = new_local("bool"), new_local("&?")
+
+            def push_to(v):
+                rbv, unit = new_local("&mut ?"), new_local("()")
+                pb = new_block([assign(rbv, {"k": "ref", "mut": True, "place": {"l": v, "p": []}}, at)], None)
+                blocks[pb]["term"] = {"k": "call", "decl": "alloc::vec::Vec::<T, A>::push", "decl_local": False, "self_adt": "alloc::vec::Vec", "dispatch": "static",
+                                      "resolved": "alloc::vec::Vec::<T, A>::push", "resolved_local": False, "args": [{"move": {"l": rbv, "p": []}}, {"move": {"l": xn, "p": []}}],
+                                      "arg_tys": ["&mut alloc::vec::Vec<%s>" % _vec_elem(t.get("dest_ty")), _vec_elem(t.get("dest_ty"))], "generic_args": [], "dest": {"l": unit, "p": []}, "target": H, "unwind": None, "at": at}
+                return pb
+            yes, no = push_to(va), push_to(vb_)
+            sw = new_block([], {"k": "switch", "discr": {"move": {"l": r, "p": []}}, "discr_ty": "bool", "arms": [{"value": 0, "target": no}], "otherwise": yes, "at": at})
+            ce = emit_call(cons_callable, [rx], r, sw, at)
+            tail_entry = new_block([assign(rx, {"k": "ref", "mut": False, "place": {"l": xn, "p": []}}, at)], {"k": "goto", "target": ce, "at": at})
         elif kind == "fold":
             tmp = new_local()
             back = new_block([assign(acc, {"k": "use", "a": {"move": {"l": tmp, "p": []}}}, at)], {"k": "goto", "target": H, "at": at})
@@ -2526,6 +2586,12 @@ def desugar_adaptors(prog, fn, results=False):
                                 "resolved": "alloc::vec::Vec::<T>::new", "resolved_local": False, "args": [], "arg_tys": [], "generic_args": [],
                                 "dest": {"l": dest, "p": []}, "target": H, "unwind": None, "at": at})
             nb["term"] = {"k": "goto", "target": vb, "at": at}
+        elif kind == "partition":
+            def vec_new(l, tgt):
+                return new_block([], {"k": "call", "decl": "alloc::vec::Vec::<T>::new", "decl_local": False, "self_adt": "alloc::vec::Vec", "dispatch": "static",
+                                      "resolved": "alloc::vec::Vec::<T>::new", "resolved_local": False, "args": [], "arg_tys": [], "generic_args": [],
+                                      "dest": {"l": l, "p": []}, "target": tgt, "unwind": None, "at": at})
+            nb["term"] = {"k": "goto", "target": vec_new(va, vec_new(vb_, H)), "at": at}
         else:
             nb["term"] = {"k": "goto", "target": H, "at": at}
         blocks[bi] = nb
@@ -2542,8 +2608,11 @@ def desugar_adaptors(prog, fn, results=False):
     d["blocks"] = blocks
     d["arg_count"] = fn.nargs
     nf = Fn(prog, fn.path, d)
-    nf.desugared = done
+    nf.desugared = list(getattr(fn, "desugared", []) or []) + done
     nf.inlined = list(getattr(fn, "inlined", []) or [])
+    # a closure body spliced in by this pass (the argument of `try_for_each`, of `map_or`, ..) may itself use combinators
+    if _depth < 3:
+        return desugar_adaptors(prog, nf, results, _depth + 1)
     return nf
 
 
